@@ -317,6 +317,11 @@ func c16Apply(p pair, st c16Step) (msg string, bothPanicked bool) {
 		pz, _ := new(apd.BigInt).SetString(st.S, 10)
 		pm, _ := new(big.Int).SetString(st.S, 10)
 		fz, fm = func() { retZ = z.ModSqrt(xz, pz) }, func() { retM = m.ModSqrt(xm, pm) }
+	case "SqrtS":
+		// z.Sqrt(x) for the decimal string S (values next to perfect squares beyond 2^53)
+		xz, _ := new(apd.BigInt).SetString(st.S, 10)
+		xm, _ := new(big.Int).SetString(st.S, 10)
+		fz, fm = func() { retZ = z.Sqrt(xz) }, func() { retM = m.Sqrt(xm) }
 	case "Binomial":
 		fz, fm = func() { retZ = z.Binomial(st.N, st.M) }, func() { retM = m.Binomial(st.N, st.M) }
 	case "MulRange":
@@ -857,6 +862,20 @@ func c16Run(e *core.Env) {
 			table(c16Step{Op: "MulRange", N: a, M: b})
 		}
 	}
+	// Sqrt next to perfect squares k^2 - d, k^2, k^2 + d for roots k around 2^26.5 ... 2^64 (squares beyond the 53 bits
+	// a float64 holds, up to and beyond the inline representation)
+	for _, ks := range []string{"94906265", "94906266", "134217727", "134217728", "2147483647", "2147483648", "2500000000", "3037000499", "3037000500", "4294967295", "4294967296", "18446744073709551615", "18446744073709551616"} {
+		k, _ := new(big.Int).SetString(ks, 10)
+		sq := new(big.Int).Mul(k, k)
+		for d := int64(-3); d <= 3; d++ {
+			table(c16Step{Op: "SqrtS", S: new(big.Int).Add(sq, big.NewInt(d)).String()})
+		}
+	}
+	for _, n := range []uint{53, 54, 55, 62, 63, 64, 126, 127, 128} {
+		for d := int64(-2); d <= 2; d++ {
+			table(c16Step{Op: "SqrtS", S: new(big.Int).Add(pow2(n), big.NewInt(d)).String()})
+		}
+	}
 	// ModSqrt(x, p) for x in [-25, 60] and primes of every residue class math/big distinguishes (3 mod 4, 5 mod 8,
 	// 1 mod 8), from one digit to 2^127-1
 	for _, pr := range []string{"3", "5", "7", "11", "13", "17", "19", "23", "41", "1000003", "2305843009213693951", "618970019642690137449562111", "170141183460469231731687303715884105727"} {
@@ -885,7 +904,7 @@ func init() {
 	core.Register(&core.Prop{
 		ID:    "C16",
 		Title: "BigInt behaves exactly like math/big.Int",
-		Rule:  "explicit-state BFS: a state is a receiver (value, representation class inline+/inline-/heap-small/heap, slack) reached by a method sequence; every transition applies one BigInt method with every argument tuple and alias pattern of the alphabet to the receiver and the same call to a mirrored *big.Int graph; after every transition all read-only observers are compared, arguments must be unchanged and representation invariants hold; states are deduplicated by canonical key (per worker shard); plus the complete argument tables Binomial(n,k), 0<=n<=140, -1<=k<=n+1 MulRange(a,b), -6<=a,b<=40, and ModSqrt(x,p), -25<=x<=60, 13 primes up to 2^127-1, on an inline and a heap-backed receiver",
+		Rule:  "explicit-state BFS: a state is a receiver (value, representation class inline+/inline-/heap-small/heap, slack) reached by a method sequence; every transition applies one BigInt method with every argument tuple and alias pattern of the alphabet to the receiver and the same call to a mirrored *big.Int graph; after every transition all read-only observers are compared, arguments must be unchanged and representation invariants hold; states are deduplicated by canonical key (per worker shard); plus the complete argument tables Binomial(n,k), 0<=n<=140, -1<=k<=n+1 MulRange(a,b), -6<=a,b<=40, Sqrt next to 13 perfect squares beyond 2^53 and next to 2^53..2^128, and ModSqrt(x,p), -25<=x<=60, 13 primes up to 2^127-1, on an inline and a heap-backed receiver",
 		Bounds: func(tier string) string {
 			if tier == "thorough" {
 				return fmt.Sprintf("alphabet of %d boundary values (0, +-1..10, 2^31..2^32+1, 2^63-1..2^64+1, 2^127..2^128+1, 10^19, 10^38, 10^39, 2^200(+1)), inline and heap-backed; depth 3: level 0 from every alphabet state with the 14-value argument set (x2 representations, + receiver aliasing), levels 1 and 2 from every new state with the 5-value set (the run is capped by the soft deadline and reports how far it got); 17 binary + 5 unary methods, shifts {0,1,63,64,65,127,128,129,200}, setters, encoders", len(c16Alphabet))
